@@ -108,6 +108,8 @@ def _maybe_company(rng, plan_actors, ops, max_iters=40):
         if u < 0.3 and s0["params"].get("evolventDensity", 10) == 10:
             s1["params"] = dict(s0["params"])
             s0["params_obj"] = s1["params_obj"] = "shared:P"
+        elif u < 0.45:
+            s1 = G.share_problem(rng, plan_actors, "S0", "S1", max_iters=max_iters)     # two solvers, ONE Problem object
         n = s1["params"]["itersLimit"]
         ops2 = G.gen_single_ops(rng, "S1", rng.randint(0, min(n, 20)), with_solve=rng.random() < 0.8)
         if rng.random() < 0.1:
